@@ -10,6 +10,14 @@ CLAIMED = {
    technique="Lean 4 proof: parser = grammar (accepts/sound/rejects/unique) + differential correspondence of the Lean model with parse_server",
    text="Lean theorems C20_accepts / C20_sound / C20_rejects / C20_unique: the model of parse_server accepts exactly the documented grammar ADDRESS[:DISPLAY|::PORT] with exactly the documented host, port and family, for all strings and all values of the IPv6-validity and path-existence predicates. The model is tied to command.parse_server on every run by a differential run (generated + mutated strings, all strings of length <= 5 over {a,1,:,[,],.}) and the implementation is also compared directly with an independent recogniser of the grammar (the search).",
    note="Trusted: Lean kernel + standard axioms; CPython str/int/ipaddress semantics as modelled in VncModel/PyStr.lean (int(): ASCII only); correspondence reach is bounded by its generators."),
+ "C04": dict(engine="Client", design_ref="DESIGN.md section 8 C04",
+   technique="Lean 4 proof over the model of _decodeKey/keyPress/keyDown/keyUp with the key table regenerated from source (decide in the kernel) + differential correspondence + Lean Spec evaluated against the implementation",
+   text="Lean theorems: the key table extracted from the source on this run equals the X11 keysym table of the Spec (C04_keymap, decide); every name / every character / every chord decodes to the keysyms of its elements left to right (C04_name, C04_char, C04_decode_chord, for all chords); press = presses then releases in reverse, keydown/keyup only presses/releases, each event the exact 8-byte KeyEvent a server parses back (C04_op_writes, C04_wire); forced caps wraps exactly upper-case letters and the shifted symbols (C04_forcecaps); type/typefile expansions (C04_type, C04_typefile). The model is tied to client.py by a differential run on one long-lived client and the implementation is compared with the Lean Spec itself (vncdrv speckey).",
+   note="Trusted: Lean kernel + standard axioms; str.isupper is a parameter; str.split/dict.get/ord/struct.pack as modelled; `slash`=backslash is taken from the code."),
+ "C05": dict(engine="Client", design_ref="DESIGN.md section 8 C05",
+   technique="Lean 4 proof: refinement of the pointer model to a position + held-set spec for all histories, integer lemmas for the drag path + differential correspondence and a direct property oracle on a Deferred chain with a virtual clock",
+   text="Lean theorems: for every history of move/down/up/click/drag the model sends exactly the events of the abstract position + held-button-set semantics (C05_invariant, by induction over the history through C05_step); a click is one press and one release (C05_click); a drag ends exactly on the target with the mask unchanged (C05_drag_last, C05_drag_mask), its points are floors of the exact segment points, inside the bounding box, monotone, in range (C05_drag_on_segment, C05_drag_in_box, C05_drag_monotone, C05_in_range), zero-length drags send one event (C05_drag_zero); the 6-byte PointerEvent parses back (C05_wire). Correspondence: histories executed through a real Deferred chain with task.Clock are compared byte for byte with the model, and checked directly against the property (incl. 0.2 s spacing and that no later operation starts before a drag has finished).",
+   note="Trusted: Lean kernel + standard axioms; Python int bit operations and floor division as modelled; Twisted Deferred/inlineCallbacks/callLater exercised under task.Clock, not proved. Hypotheses: positions 0..65535, buttons 1..8, step >= 1."),
 }
 
 def main():
@@ -44,6 +52,7 @@ def main():
         "engines": [
             {"name": "Expect", "path": "lean/VncModel/Expect.lean", "serves_properties": ["C01", "C15", "C16", "C17"], "kind_free_text": "generic buffering machine + segmentation theorems (Lean)"},
             {"name": "Script", "path": "lean/VncModel/Address.lean", "serves_properties": ["C20"], "kind_free_text": "pure functions of command.py (Lean model + theorems)"},
+            {"name": "Client", "path": "lean/VncModel/Keys.lean", "serves_properties": ["C04", "C05"], "kind_free_text": "VNCDoToolClient key / pointer operations and serialisers (Lean model + theorems)"},
             {"name": "harness", "path": "harness/", "serves_properties": sorted(CLAIMED), "kind_free_text": "Python: implementation drivers, generators, correspondence with the Lean driver (lean/Driver/Main.lean), spec oracles"},
         ],
         "checks": checks,
